@@ -206,6 +206,33 @@ def run(ctx) -> None:
                 ctx.count("valid_range.calls")
                 ctx.case(f"vr|dt64-scalar-list|{unit_v}|{unit_s}|{a_}|{b_}")
 
+    # ---- the inclusivity options reach the function however the call is spelled: positionally (documented order inp,
+    #      valid_span, dtype, start_inclusive, end_inclusive) and as parameters of a configured test (QcConfig / Call.run)
+    if ctx.shard == 0:
+        from ioos_qc.config import QcConfig  # noqa: PLC0415
+
+        fnv = client.resolve("axds.valid_range_test")
+        vals_ = [-1.0, 0.0, 1.0, 2.0, 3.0, float("nan")]
+        lvals_ = [None if v != v else v for v in vals_]
+        for lo, hi in ((0, 2), (1, 3), (0.0, 0.0)):
+            for si, ei in itertools.product([True, False], repeat=2):
+                want = [sorted(s_)[0] for s_ in models.valid_range(lvals_, lo, hi, si, ei)]
+                spellings = {"positional": lambda: fnv(np.array(vals_), (lo, hi), None, si, ei),
+                             "QcConfig": lambda: QcConfig({"axds": {"valid_range_test": {"valid_span": [lo, hi], "start_inclusive": si,
+                                                                                       "end_inclusive": ei}}}).run(inp=np.array(vals_))["axds"]["valid_range_test"]}
+                for sname, fn_ in spellings.items():
+                    try:
+                        got = np.ma.getdata(fn_()).astype(int).tolist()
+                    except Exception as e:  # noqa: BLE001
+                        got = f"raised {type(e).__name__}: {e}"[:200]
+                    ctx.count("valid_range.calls")
+                    ctx.count("valid_range.other_call_spellings")
+                    ctx.case(f"vr|spelling|{sname}|{si}{ei}|{'deg' if lo == hi else 'ord'}")
+                    if got != want:
+                        ctx.violation(f"C03:valid_range:{sname}-call:flags", {"kind": "call", "func": "axds.valid_range_test", "spelling": sname,
+                                                                            "values": lvals_, "valid_span": [lo, hi], "start_inclusive": si,
+                                                                            "end_inclusive": ei, "expected": want, "observed": got})
+
     # malformed spans are rejected (isfixedlength)
     if ctx.shard == 0:
         for bad in ([1], [1, 2, 3], (), "ab"):
